@@ -19,7 +19,15 @@
 //   - user comments are only placed where the scanner accepts them: never inside a multi-line annotation,
 //     never between a key and its ':' / between ':' and the value.
 //   - the error CODE is compared for every variant; the generator plants at most one defect with a single
-//     symptom per schema, so a rule shuffle cannot legitimately change which error is met first.
+//     symptom per schema, so a rule shuffle cannot legitimately change which error is met first. Schemas
+//     without a planted defect are valid by construction (stat generator_unplanned_invalid must stay 0).
+//   - a `###` block is never empty and its text never starts with '#'; a multi-line block in front of a node
+//     is always closed by a real line break (line breaks inside a block are not line ends for the annotation
+//     binding); notes never start with '{' and never contain '#' or "*/".
+//   - fraction zeros (`1.0` -> `1.00`) are applied to documents only when no schema of the case uses an `enum`
+//     rule: enum items compare numbers as text (known finding K-C10-enumtext, recorded under C10); `const`
+//     compares by value and is covered.
+//   - one-line subtrees (several nodes on a line) never carry annotations: refused by design (304 / 804).
 package c13
 
 import (
